@@ -137,6 +137,12 @@ def judge_set(ctx, label, got_objs, exp_items, case, mech_hint=None):
     return True
 
 
+def _fresh_union(stix2, members):
+    c = stix2.CompositeDataSource()
+    c.add_data_sources([m_[1].source for m_ in members])
+    return c
+
+
 def exercise(ctx, rng, name, src, model, case, full=True, env=None):
     """All read operations on one source-like object against the list model `model`."""
     items = model.items
@@ -474,6 +480,53 @@ def wl_partition(ctx, rng, i):
             env2 = stix2.Environment(source=members[m][1].source, sink=members[m][1].sink)
             exercise(ctx, rng, "Environment(source, sink)", env2, contents[m], dict(case, member=m, members=1), full=False, env=env2)
             ctx.count("environments")
+        # an environment over a composite of all members, given filters through its own add_filter / add_filters: what it answers
+        # is the filtered union (the newest version the filters let through for a lookup by id)
+        try:
+            fa, fb = gen_filter(rng, union), gen_filter(rng, union)
+            cds_e = stix2.CompositeDataSource()
+            cds_e.add_data_sources([m_[1].source for m_ in members])
+            env3 = stix2.Environment(source=cds_e)
+            how = rng.choice(["add_filter x2", "add_filters(list)", "add_filter + query argument"])
+            if how == "add_filter x2":
+                env3.add_filter(to_lib(fa))
+                env3.add_filter(to_lib(fb))
+                arg = None
+            elif how == "add_filters(list)":
+                env3.add_filters([to_lib(fa), to_lib(fb)])
+                arg = None
+            else:
+                env3.add_filter(to_lib(fa))
+                arg = [to_lib(fb)]
+            c6 = dict(case, environment="Environment(source=composite of %d)" % nmem, filters=[fdesc(fa), fdesc(fb)], given=how)
+            exp_e = evaluate([fa, fb], union.items, TS_PROPS)
+            with warnings.catch_warnings():
+                warnings.simplefilter("ignore")
+                judge_set(ctx, "Environment(source=composite).query() with filters given by %s" % how, env3.query(arg) if arg else env3.query(), exp_e, c6,
+                          mech_hint="environment-filter-not-applied")
+                if arg is None:
+                    for sid in rng.sample(union.ids(), min(3, len(union.ids()))):
+                        g = env3.get(sid)
+                        letthrough = evaluate([fa, fb], union.versions(sid), TS_PROPS)
+                        ctx.ev()
+                        if letthrough:
+                            newest = max(letthrough, key=version_instant)
+                            if g is None or key(norm(g)) != key(newest):
+                                ctx.violation("environment-filter-not-applied", "environment with filters %s, %s: get(%s) answered %s, the newest version they let through is %s" % (
+                                    fdesc(fa), fdesc(fb), sid, "nothing" if g is None else norm(g).get("modified"), newest.get("modified")), dict(c6, id=sid))
+                                break
+                        elif g is not None:
+                            ctx.violation("environment-filter-not-applied", "environment with filters %s, %s: get(%s) answered a version neither lets through" % (
+                                fdesc(fa), fdesc(fb), sid), dict(c6, id=sid, returned=norm(g)))
+                            break
+                # the members themselves are none the wiser
+                judge_set(ctx, "a fresh composite over the same members after the environment was filtered", _fresh_union(stix2, members).query(), union.items, c6,
+                          mech_hint="environment-filter-leaks-into-members")
+            ctx.count("environment_filter_cases")
+        except Unjudged:
+            pass
+        except Exception as e:
+            ctx.violation("navigation-raised", "environment over a composite with filters raised %s" % type(e).__name__, dict(case, exception=repr(e)))
         ctx.count("partitions")
         ctx.see("layouts", layout)
         if ctx.want_sample():
@@ -502,8 +555,22 @@ def wl_factory(ctx, rng, i):
     if rng.random() < 0.7:
         kwargs["object_marking_refs"] = list(d_marks)
         defaults["object_marking_refs"] = list(d_marks)
-    factory = stix2.ObjectFactory(**kwargs)
-    maker = stix2.Environment(factory=factory) if rng.random() < 0.5 else factory
+    single_default = "object_marking_refs" in kwargs and rng.random() < 0.3
+    if single_default:
+        kwargs["object_marking_refs"] = d_marks[0]          # one marking where a list is accepted
+    via_setters = rng.random() < 0.35
+    if via_setters:
+        # the same defaults given after construction through the setters (the environment passes them to its factory)
+        factory = stix2.ObjectFactory(list_append=list_append)
+        maker = stix2.Environment(factory=factory) if rng.random() < 0.5 else factory
+        for k_, setter in (("created_by_ref", "set_default_creator"), ("created", "set_default_created"),
+                           ("external_references", "set_default_external_refs"), ("object_marking_refs", "set_default_object_marking_refs")):
+            if k_ in kwargs:
+                getattr(maker, setter)(kwargs[k_])
+        ctx.count("factory_defaults_via_setters")
+    else:
+        factory = stix2.ObjectFactory(**kwargs)
+        maker = stix2.Environment(factory=factory) if rng.random() < 0.5 else factory
     for call in range(4):
         kw = {"name": "made %d" % call, "identity_class": "individual", "id": "identity--" + V.uuid_text(rng, 4)}
         if "created" not in defaults:
@@ -537,7 +604,8 @@ def wl_factory(ctx, rng, i):
         gj, wj = norm(got), norm(want)
         if not compare.generic_equal(gj, wj):
             ctx.violation("factory-defaults-mismatch", "ObjectFactory.create call %d differs from the dict-merge model (list_append=%s)" % (call, list_append),
-                          {"factory_defaults": defaults, "list_append": list_append, "call": call, "kwargs": kw, "got": gj, "expected": wj})
+                          {"factory_defaults": defaults, "list_append": list_append, "call": call, "kwargs": kw, "got": gj, "expected": wj,
+                           "defaults_given": "setters" if via_setters else "constructor", "single_marking_default": single_default})
             break
         ctx.nontrivial("factory", list_append, sorted(defaults), sorted(k for k in kw if k in ("external_references", "object_marking_refs", "created_by_ref")), call)
 
@@ -561,6 +629,8 @@ def floors(m, tier):
         out.append("fewer than 30 composite membership changes judged")
     if c.get("nested_federations", 0) < 10:
         out.append("fewer than 10 nested federations")
+    if c.get("environment_filter_cases", 0) < 10:
+        out.append("fewer than 10 environments with filters of their own")
     if c.get("factory_calls", 0) < 200:
         out.append("fewer than 200 factory calls")
     lay = m["seen"].get("layouts", set())
